@@ -28,6 +28,8 @@ LEVEL_NOTE = ('Trusted: Coq kernel, extraction, harness, numpy (slicing, BLAS do
               'propagation part rests on the C02 model/theorems (Model/Propagate.v, Proofs/PropagateP.v). Describes the code after the '
               'fix: commits for C03-one-element-array-field and C03-one-layer-cube (single-sample segments, one-layer cubes).')
 TRUSTED = ['Coq 8.16.1 kernel (coqc; coqchk in the thorough tier)',
+           'Model/Fft.v (property C09) for the propagate_fft step; lentil.rescale (property C17) is an observed primitive: the model of a '
+           'rescaled plane is built from the public attributes Plane.rescale returns',
            'extraction with ExtrOcamlBasic only; ocaml/driver.ml',
            'harness/props/c03.py, c07.py: codec, evaluation of group-ring elements at exp(-2 pi i/L), np.sqrt of the unitary factor',
            'numpy: slicing, broadcasting, BLAS dot, np.exp (modelled; observed through the tie)',
@@ -42,7 +44,9 @@ RULE = ('random supports <= 7x7 (quick) / 10x10 (thorough), random labelling int
         'segmented and monolithic (optionally with a tilted incoming wavefront, lentil.Tilt planes before/after the apertures, and ONE '
         'incoming Wavefront object re-used for both descriptions); segmented pupils with a different tilt per segment and prop_shape < shape (chips disjoint / '
         'disjoint / bridging in every order) compared with the sum of the single-segment propagations; whole-array vs cropped '
-        'sub-array(s)-with-offset wavefronts; non-trivial = at least two segments with overlapping bounding boxes, tilted chips, '
+        'sub-array(s)-with-offset wavefronts; the same two comparisons through lentil.propagate_fft (no scratch, exact and larger '
+        'scratch; complex fields; off-centre supports); planes rescaled / resampled (scale 2, 3, 1/2) before they are multiplied, '
+        'segmented vs monolithic and against the rescaled plane\'s own attributes; non-trivial = at least two segments with overlapping bounding boxes, tilted chips, '
         'or at least two sub-arrays')
 
 TOL = 1e-9
@@ -61,6 +65,8 @@ def pair(x, conv=lambda v: v):
 
 def alphas(c):
     dxr, dxc = pair(c['dx'], F)
+    if c['op'] == 'rseg':          # the planes are rescaled before they are used: dx / scale
+        dxr, dxc = dxr / F(c['scale']), dxc / F(c['scale'])
     dur, duc = pair(c['call']['du'], F)
     wl, z, os = F(c['wl']), F(c['z']), c['call']['os']
     ar = dxr * dur / (wl * z * os)
@@ -132,7 +138,50 @@ def real_planes(c):
     return [pl for pl in c['planes'] if 'shift' not in pl]
 
 
+_OBS = {}
+
+
+def rescaled(lentil, c, P):
+    if c['how'] == 'resample':
+        return P.resample(float(F(c['dx']) / F(c['scale'])))
+    return P.rescale(float(F(c['scale'])))
+
+
+def observe_plane(c, pl, seg):
+    """the public attributes of the plane after Plane.rescale / Plane.resample (lentil.rescale itself - spline
+    interpolation - is property C17's; here it is an observed primitive): the model builds its plane from them"""
+    lentil = C.import_lentil()
+    base = p7_plane(pl, c, seg)
+    P2 = rescaled(lentil, c, P7.mk_plane(base, c['Lo'], F(c['wl'])))
+    amp = np.asarray(P2.amplitude)
+
+    def cx(v):
+        v = complex(v)
+        return [v.real, v.imag]
+    obs = dict(base)
+    obs['amp'] = {'s': cx(amp)} if amp.ndim == 0 else {'a': [[cx(v) for v in row] for row in amp.tolist()]}
+    m = np.asarray(P2.mask)
+    if m.ndim == 2:
+        obs['mask'] = {'a': [[[float(v), 0] for v in row] for row in m.tolist()]}
+    else:
+        obs['mask'] = {'c': [[[[float(v), 0] for v in row] for row in layer] for layer in m.tolist()]}
+    obs['pix'] = [float(P2.pixelscale[0]), float(P2.pixelscale[1])]
+    return obs
+
+
+def obs_case(c, seg):
+    key = (C.case_hash({k: v for k, v in c.items() if not k.startswith('_')}), seg, C.REPO)
+    if key not in _OBS:
+        if len(_OBS) > 64:
+            _OBS.clear()
+        _OBS[key] = {'op': 'chain', 'L': c['Lo'], 'lam': c['wl'], 'wpix': None, 'wfocal': None, 'wtilt': None,
+                     'planes': [observe_plane(c, pl, seg) for pl in c['planes']], 'insert': None}
+    return _OBS[key]
+
+
 def p7_case(c, seg):
+    if c['op'] == 'rseg':
+        return obs_case(c, seg)
     planes = []
     for pl in c['planes']:
         if 'shift' in pl:        # a lentil.Tilt plane in the chain
@@ -146,7 +195,9 @@ def p7_case(c, seg):
 
 def call_shapes(c):
     call = c['call']
-    if c['op'] in ('seg', 'tseg'):
+    if c['op'] == 'rseg':
+        wshape = P7.plane_geom(obs_case(c, False)['planes'][-1])['mshape']
+    elif c['op'] in ('seg', 'tseg'):
         lab = real_planes(c)[-1]['labels']
         wshape = (len(lab), len(lab[0]))
     else:
@@ -333,8 +384,246 @@ def single_sample(c):
     return P7.chain_boxes(p7_case(c, True))['single_sample'] or P7.chain_boxes(p7_case(c, False))['single_sample']
 
 
+# ------------------------------------------------------------------ planes rescaled / resampled before they are used
+def rnd_rseg(rng, maxs):
+    scale = rng.choice(['2', '2', '3', '1/2'])
+    Lo = rng.choice([1, 1, 2, 4])
+    n, m = rng.randint(2, 4), rng.randint(2, 4)
+    planes = []
+    for _ in range(rng.choice([1, 1, 2])):
+        k = rng.choice([1, 2, 2, 3])
+        lab = rnd_labels(rng, n, m, k)
+        if lab is None:
+            return None
+        amp = {'a': [[P7.rnd_gauss(rng) for _ in range(m)] for _ in range(n)]} if rng.random() < 0.6 else {'s': rng.choice(P7.GAUSS)}
+        if scale == '1/2':       # every sample becomes a 2x2 block so that halving keeps every segment
+            lab = [[lab[i // 2][j // 2] for j in range(2 * m)] for i in range(2 * n)]
+            if 'a' in amp:
+                amp = {'a': [[amp['a'][i // 2][j // 2] for j in range(2 * m)] for i in range(2 * n)]}
+        planes.append({'amp': amp, 'opd': {'s': 0 if Lo == 1 else rng.randint(-Lo, 2 * Lo)}, 'labels': lab, 'k': k})
+    dxp = F(rng.choice(DYAD[:3]))
+    c = {'op': 'rseg', 'Lo': Lo, 'wl': rng.choice(['1/2', '1/4', '1']), 'z': rng.choice(['1', '2', '4']),
+         'dx': str(dxp * F(scale)), 'scale': scale, 'how': rng.choice(['rescale', 'rescale', 'resample']), 'planes': planes}
+    sh = (n * 2, m * 2) if scale == '2' else (n * 3, m * 3) if scale == '3' else (n, m)
+    c['call'] = rnd_call(rng, sh, maxs)
+    return c
+
+
+# ------------------------------------------------------------------ propagate_fft as the propagation setting
+def fft_du(c):
+    """the output sampling for which lentil's FFT grid is N x N: du = lambda z os / (dx N) (isotropic pixels)"""
+    fc = c['fcall']
+    return float(F(c['wl']) * F(c['z']) * fc['os'] / (F(c['dx']) * fc['N']))
+
+
+def rnd_fcall(rng, n, m, maxN):
+    N = rng.randint(max(n, m), maxN)
+    os = rng.choice([1, 2, 2, 3])
+    t = rng.random()
+    shape = None if t < 0.5 else [rng.randint(1, max(1, N // os)), rng.randint(1, max(1, N // os))]
+    scratch = rng.choice([None, None, 'exact', 'larger'])
+    return {'N': N, 'os': os, 'shape': shape, 'scratch': scratch}
+
+
+def rnd_fseg(rng, maxn, maxN):
+    Lo = rng.choice([1, 1, 2, 4])
+    n, m = rng.randint(2, maxn), rng.randint(2, maxn)
+    planes = []
+    for _ in range(rng.choice([1, 1, 2])):
+        k = rng.choice([1, 2, 2, 3])
+        # off-centre supports: leave empty rows/columns on one side in half of the cases
+        lab = rnd_labels(rng, n, m, k)
+        if lab is None:
+            return None
+        if rng.random() < 0.6:
+            cut_r, cut_c = rng.randint(0, n - 1), rng.randint(0, m - 1)
+            lab2 = [[(v if (i >= cut_r and j <= cut_c) else -1) for j, v in enumerate(row)] for i, row in enumerate(lab)]
+            if all(any(v == q for row in lab2 for v in row) for q in range(k)):
+                lab = lab2
+        amp = {'a': [[P7.rnd_gauss(rng) for _ in range(m)] for _ in range(n)]} if rng.random() < 0.6 else {'s': rng.choice(P7.GAUSS)}
+        opd = {'s': 0} if Lo == 1 else {'a': [[rng.randint(-Lo, 2 * Lo) for _ in range(m)] for _ in range(n)]}
+        planes.append({'amp': amp, 'opd': opd, 'labels': lab, 'k': k})
+    return {'op': 'fseg', 'Lo': Lo, 'wl': rng.choice(['1/2', '1/4', '1']), 'z': rng.choice(['1', '2', '4']),
+            'dx': rng.choice(DYAD[:3]), 'planes': planes, 'fcall': rnd_fcall(rng, n, m, maxN)}
+
+
+def rnd_fcrop(rng, maxn, maxN):
+    c = rnd_crop(rng, maxn, 4)
+    n, m = len(c['g']), len(c['g'][0])
+    del c['call']
+    c.update({'op': 'fcrop', 'wl': rng.choice(['1/2', '1/4', '1']), 'z': rng.choice(['1', '2', '4']),
+              'dx': rng.choice(DYAD[:3]), 'fcall': rnd_fcall(rng, n, m, maxN)})
+    return c
+
+
+def f_L(c):
+    return lcm(c['fcall']['N'], c.get('Lo', 1))
+
+
+def enc_fcall(c):
+    fc = c['fcall']
+    du = fft_du(c)
+    out = [fc['N'], fc['N']] + C.enc_q(du) + C.enc_q(du)
+    out += C.enc_opt(fc['shape'], lambda sh: [int(sh[0]), int(sh[1])]) + [fc['os']]
+    N = fc['N']
+    return out + ([0] if fc['scratch'] is None else [1] + ([N, N] if fc['scratch'] == 'exact' else [N + 2, N + 1]))
+
+
+def encode_f(c):
+    L, lam = f_L(c), F(c['wl'])
+    if c['op'] == 'fseg':
+        out = [5, L] + C.enc_q(lam)
+        for seg in (True, False):
+            pc = p7_case(c, seg)
+            out += [len(pc['planes'])]
+            for pl in pc['planes']:
+                out += P7.enc_plane(pl, c['Lo'], lam)
+        return out + enc_fcall(c)
+    dx = float(F(c['dx']))
+    out = [6, L] + C.enc_q(lam) + C.enc_q(dx) + C.enc_q(dx) + C.enc_q(float(F(c['z']))) + P7.enc_carr(c['g'])
+    out += [len(c['variants'])]
+    for v in c['variants']:
+        out += [len(v)]
+        for sl in v:
+            out += list(sl)
+    return out + enc_fcall(c)
+
+
+def read_fres(rd, L, sc):
+    if rd.z() == 1:
+        return {'err': C.ERRNAMES[rd.z()]}
+    shape = [rd.z(), rd.z()]
+    if rd.z() == 1:
+        return {'shape': shape, 'field': {'err': C.ERRNAMES[rd.z()]}}
+    return {'shape': shape, 'field': {'arr': [[C.kval(v, L) * sc for v in row] for row in rd.arr()]}}
+
+
+def decode_f(c, ints):
+    L = f_L(c)
+    sc = 1.0 / c['fcall']['N']          # norm='ortho' on an N x N grid
+    rd = C.Reader(ints, L)
+    assert rd.z() == 0
+    if c['op'] == 'fseg':
+        res = []
+        for _ in range(2):
+            if rd.z() == 1:
+                res.append({'err': C.ERRNAMES[rd.z()]})
+            else:
+                res.append(read_fres(rd, L, sc))
+        assert rd.done()
+        return {'seg': res[0], 'mono': res[1]}
+    res = {'variants': rd.lst(lambda: read_fres(rd, L, sc))}
+    assert rd.done()
+    return res
+
+
+def do_fcall(lentil, w, c):
+    fc = c['fcall']
+    N = fc['N']
+    scratch = None
+    if fc['scratch'] is not None:
+        scratch = np.full((N, N) if fc['scratch'] == 'exact' else (N + 2, N + 1), 1 + 1j, dtype=complex)
+    try:
+        o = lentil.propagate_fft(w, pixelscale=fft_du(c), shape=None if fc['shape'] is None else tuple(fc['shape']),
+                                 oversample=fc['os'], scratch=scratch)
+    except Exception as e:
+        return {'err': type(e).__name__}
+    return {'shape': [int(o.shape[0]), int(o.shape[1])], 'field': P7.view(lambda: o.field)}
+
+
+def run_impl_f(c):
+    lentil = C.import_lentil()
+    lam = F(c['wl'])
+    if c['op'] == 'fseg':
+        res = {}
+        for key, seg in (('seg', True), ('mono', False)):
+            try:
+                w = lentil.Wavefront(wavelength=float(lam))
+                for pl in p7_case(c, seg)['planes']:
+                    w = w * P7.mk_plane(pl, c['Lo'], lam)
+            except Exception as e:
+                res[key] = {'err': type(e).__name__}
+                continue
+            res[key] = do_fcall(lentil, w, c)
+        return res
+    g = P7.np_carr(c['g'])
+    dx = float(F(c['dx']))
+    out = []
+    for v in c['variants']:
+        w = lentil.Wavefront.empty(wavelength=float(lam), pixelscale=dx, focal_length=float(F(c['z'])),
+                                   shape=g.shape, ptype=lentil.pupil)
+        for (r0, r1, c0, c1) in v:
+            sl = np.s_[r0:r1, c0:c1]
+            w.data.append(lentil.field.Field(data=g[sl], offset=lentil.helper.slice_offset(sl, g.shape)))
+        out.append(do_fcall(lentil, w, c))
+    return {'variants': out}
+
+
+def cmp_fres(a, b, what):
+    if ('err' in a) or ('err' in b):
+        if a.get('err') != b.get('err'):
+            return f'{what}: implementation {a.get("err", "returned a value")}, model {b.get("err", "returned a value")}'
+        return None
+    if a['shape'] != b['shape']:
+        return f'{what}: shape {a["shape"]} vs model {b["shape"]}'
+    return P7.cmp_view(a['field'], b['field'], TOL, what + ' field')
+
+
+def compare_f(c, impl, model):
+    if c['op'] == 'fseg':
+        return cmp_fres(impl['seg'], model['seg'], 'segmented, propagate_fft') or \
+            cmp_fres(impl['mono'], model['mono'], 'monolithic, propagate_fft')
+    for k, (a, b) in enumerate(zip(impl['variants'], model['variants'])):
+        m = cmp_fres(a, b, f'variant {k}, propagate_fft')
+        if m:
+            return m
+    return None
+
+
+def same_fres(a, b, what):
+    if 'err' in a or 'err' in b:
+        if a.get('err') != b.get('err'):
+            return f'{what}: {a.get("err", "ok")} vs {b.get("err", "ok")}'
+        return None
+    if a['shape'] != b['shape']:
+        return f'{what}: shapes {a["shape"]} vs {b["shape"]}'
+    return same_view(a['field'], b['field'], what + ': complex field after propagate_fft')
+
+
+def oracle_f(c, impl):
+    if c['op'] == 'fseg':
+        return same_fres(impl['seg'], impl['mono'], 'segmented vs monolithic')
+    ref = impl['variants'][0]
+    for k, v in enumerate(impl['variants'][1:], 1):
+        m = same_fres(ref, v, f'whole array vs sub-array variant {k}')
+        if m:
+            return m
+    return None
+
+
 def generate(rng, tier):
     quick = tier == 'quick'
+    nf, nfc = (40, 15) if quick else (500, 150)
+    out = tries = 0
+    while out < (25 if quick else 300) and tries < 100000:
+        tries += 1
+        c = rnd_rseg(rng, 5 if quick else 7)
+        if c is None:
+            continue
+        ar, ac, ok = alphas(c)
+        if not ok or case_L(c) > (48 if quick else 64) or abs(ar) > 2 or abs(ac) > 2:
+            continue
+        out += 1
+        yield c
+    out = 0
+    while out < nf:
+        c = rnd_fseg(rng, 5 if quick else 7, 10 if quick else 14)
+        if c is None or f_L(c) > (48 if quick else 64):
+            continue
+        out += 1
+        yield c
+    for _ in range(nfc):
+        yield rnd_fcrop(rng, 5 if quick else 7, 10 if quick else 14)
     n_seg, n_crop = (70, 25) if quick else (1200, 300)
     maxn = 6 if quick else 10
     maxs = 5 if quick else 7
@@ -373,19 +662,25 @@ def generate(rng, tier):
 
 
 def classify(c):
+    if c['op'] in ('fseg', 'fcrop'):
+        return c['op'] + '/' + str(c['fcall']['scratch']) + ('/shape' if c['fcall']['shape'] else '')
     if c['op'] == 'crop':
         return 'crop'
     if c['op'] == 'tseg':
         return 'tseg/' + chip_kind(c)
+    if c['op'] == 'rseg':
+        return f'rseg/{c["how"]}/{c["scale"]}/' + '-'.join(str(pl['k']) for pl in c['planes'])
     return ('seg/' + '-'.join(('T' if 'shift' in pl else str(pl['k'])) for pl in c['planes']) + ('/wt' if c.get('wshift') else '')
             + ('/reuse' if c.get('reuse') else '') + ('/opd' if c['Lo'] > 1 else '')
             + ('/1px' if single_sample(c) else ''))
 
 
 def nontrivial(c):
+    if c['op'] in ('fseg', 'fcrop'):
+        return True
     if c['op'] == 'crop':
         return len(c['variants'][-1]) > 1
-    if c['op'] == 'tseg':
+    if c['op'] in ('tseg', 'rseg'):
         return True
     for pl in real_planes(c):
         segs = [[[v == q for v in row] for row in pl['labels']] for q in range(pl['k'])]
@@ -409,18 +704,26 @@ def enc_call(c):
 
 
 def encode(c):
+    if c['op'] in ('fseg', 'fcrop'):
+        return encode_f(c)
     L = case_L(c)
     lam = F(c['wl'])
-    if c['op'] == 'seg':
-        out = [1, L] + C.enc_q(lam)
+    if c['op'] in ('seg', 'rseg'):
+        try:
+            p7_case(c, True), p7_case(c, False)
+        except Exception:
+            return None          # the rescale itself failed: nothing to model
+        # rescaled planes: interpolated amplitudes are full-precision floats; the model computes the pupil-plane views
+        # (exact rational arithmetic), the propagated views are decided by the oracle (segmented == monolithic)
+        out = ([1, L] if c['op'] == 'seg' else [7, 1 if c['Lo'] == 1 else c['Lo']]) + C.enc_q(lam)
         for seg in (True, False):
             pc = p7_case(c, seg)
-            if seg:
+            if seg and c['op'] == 'seg':
                 out += P7.enc_tilts([pc['wtilt']] if pc['wtilt'] else [])
             out += [len(pc['planes'])]
             for pl in pc['planes']:
                 out += P7.enc_plane(pl, c['Lo'], lam)
-        return out + enc_call(c)
+        return out + (enc_call(c) if c['op'] == 'seg' else [])
     if c['op'] == 'tseg':
         return [4, L] + C.enc_q(lam) + [1] + P7.enc_plane(p7_tplane(c), c['Lo'], lam) + enc_call(c)
     dxr, dxc = pair(c['dx'], lambda v: float(F(v)))
@@ -447,19 +750,23 @@ def read_views(rd, L, sc):
 
 
 def decode(c, ints):
-    L = case_L(c)
+    if c['op'] in ('fseg', 'fcrop'):
+        return decode_f(c, ints)
+    L = case_L(c) if c['op'] != 'rseg' else c['Lo']
     sc = scale(c)
     rd = C.Reader(ints, L)
     assert rd.z() == 0
-    if c['op'] == 'seg':
+    if c['op'] in ('seg', 'rseg'):
         res = []
         for _ in range(2):
             st = rd.z()
             if st == 1:
                 res.append({'err': C.ERRNAMES[rd.z()]})
                 continue
-            res.append({'pre_field': P7.read_fdata(rd, L), 'pre_intensity': P7.read_fdata(rd, L),
-                        'post': read_views(rd, L, sc)})
+            r = {'pre_field': P7.read_fdata(rd, L), 'pre_intensity': P7.read_fdata(rd, L)}
+            if c['op'] == 'seg':
+                r['post'] = read_views(rd, L, sc)
+            res.append(r)
         assert rd.done()
         return {'seg': res[0], 'mono': res[1]}
     if c['op'] == 'tseg':
@@ -498,9 +805,15 @@ def mk_w0(lentil, c):
 def run_variant(lentil, c, seg, w0=None):
     lam = F(c['wl'])
     try:
-        w = mk_w0(lentil, c) if w0 is None else w0
-        for pl in p7_case(c, seg)['planes']:
-            w = w * P7.mk_plane(pl, c['Lo'], lam)
+        if c['op'] == 'rseg':
+            # construct -> rescale / resample -> multiply, all through the public API
+            w = lentil.Wavefront(wavelength=float(lam))
+            for pl in c['planes']:
+                w = w * rescaled(lentil, c, P7.mk_plane(p7_plane(pl, c, seg), c['Lo'], lam))
+        else:
+            w = mk_w0(lentil, c) if w0 is None else w0
+            for pl in p7_case(c, seg)['planes']:
+                w = w * P7.mk_plane(pl, c['Lo'], lam)
     except Exception as e:
         return {'err': type(e).__name__}
     return {'pre_field': P7.view(lambda: w.field), 'pre_intensity': P7.view(lambda: w.intensity),
@@ -508,7 +821,16 @@ def run_variant(lentil, c, seg, w0=None):
 
 
 def run_impl(c):
+    if c['op'] in ('fseg', 'fcrop'):
+        return run_impl_f(c)
     lentil = C.import_lentil()
+    if c['op'] == 'rseg':
+        res = {'seg': run_variant(lentil, c, True), 'mono': run_variant(lentil, c, False)}
+        try:
+            res['obs'] = {'seg': obs_case(c, True)['planes'], 'mono': obs_case(c, False)['planes']}
+        except Exception as e:
+            res['obs'] = {'err': type(e).__name__}
+        return res
     if c['op'] == 'seg':
         if c.get('reuse'):
             w0 = mk_w0(lentil, c)       # ONE incoming wavefront object for both descriptions
@@ -557,8 +879,10 @@ def cmp_post(a, b, what):
 
 
 def compare(c, impl, model):
-    if c['op'] in ('seg', 'tseg'):
-        for key in (('seg', 'mono') if c['op'] == 'seg' else ('seg',)):
+    if c['op'] in ('fseg', 'fcrop'):
+        return compare_f(c, impl, model)
+    if c['op'] in ('seg', 'tseg', 'rseg'):
+        for key in (('seg', 'mono') if c['op'] != 'tseg' else ('seg',)):
             a, b = impl[key], model[key]
             if ('err' in a) or ('err' in b):
                 if a.get('err') != b.get('err'):
@@ -566,7 +890,7 @@ def compare(c, impl, model):
                 continue
             m = (P7.cmp_view(a['pre_field'], b['pre_field'], TOL, key + ' field before propagation')
                  or P7.cmp_view(a['pre_intensity'], b['pre_intensity'], TOL, key + ' intensity before propagation')
-                 or cmp_post(a['post'], b['post'], key + ' after propagation'))
+                 or ('post' in b and cmp_post(a['post'], b['post'], key + ' after propagation')) or None)
             if m:
                 return m
         return None
@@ -630,10 +954,39 @@ def oracle_tseg(c, impl):
     return None
 
 
+def oracle_rescaled_pointwise(c, impl):
+    """the field a rescaled plane leaves behind is amplitude * exp(2 pi i opd / lambda) * mask of the plane's OWN
+    (rescaled) attributes, sample by sample"""
+    if 'err' in impl.get('obs', {}):
+        return None
+    for key in ('seg', 'mono'):
+        v = impl[key]
+        if 'err' in v or 'arr' not in v['pre_field']:
+            continue
+        arr = v['pre_field']['arr']
+        R, Cc = len(arr), len(arr[0])
+        planes = impl['obs'][key]
+        for i in range(R):
+            for j in range(Cc):
+                e = 1 + 0j
+                for pl in planes:
+                    e *= P7.transmission(pl, c['Lo'], i - R // 2, j - Cc // 2)
+                if not P7.close(arr[i][j], e, TOL):
+                    return (f'{key}: field[{i},{j}] = {arr[i][j]} after multiplying by the {c["how"]}d plane(s), but their own '
+                            f'amplitude/opd/mask give {e} there')
+    return None
+
+
 def oracle(c, impl):
+    if c['op'] in ('fseg', 'fcrop'):
+        return oracle_f(c, impl)
+    if c['op'] == 'rseg':
+        m = oracle_rescaled_pointwise(c, impl)
+        if m:
+            return m
     if c['op'] == 'tseg':
         return oracle_tseg(c, impl)
-    if c['op'] == 'seg':
+    if c['op'] in ('seg', 'rseg'):
         a, b = impl['seg'], impl['mono']
         if 'err' in b:
             return None if 'err' in a else f'the monolithic description raised {b["err"]}'
